@@ -322,6 +322,10 @@ def canon_expr(n):
     return src(n).replace(' ', '')
 
 
+PURE_METHODS = ('keys', 'values', 'items', 'size', 'lower', 'upper', 'strip')     # argument-free reads
+PURE_CALLS = ('__cast__', 'len', 'int', 'float', 'abs', 'min', 'max', 'str', 'bool')    # no side effect, no new mutable object
+
+
 def inline_pure_temps(fdef):
     """Copy of a function in which single-site local temporaries that merely name a side-effect-free expression
     (`coef = U[s, r] + D[s, r]`, `amount = self.queue[r, t]`) are replaced by that expression and their definitions dropped.
@@ -340,11 +344,13 @@ def inline_pure_temps(fdef):
                 continue
             if isinstance(n, (ast.Assign, ast.AugAssign, ast.AnnAssign)) and not (isinstance(n, ast.AnnAssign) and n.value is None):
                 for t in (n.targets if isinstance(n, ast.Assign) else [n.target]):
-                    for x in ast.walk(t):
-                        if isinstance(x, ast.Subscript):
-                            out.add(txt(x.value))
-                        elif isinstance(x, (ast.Name, ast.Attribute)) and isinstance(getattr(x, 'ctx', None), ast.Store):
-                            out.add(txt(x))
+                    for el in (t.elts if isinstance(t, (ast.Tuple, ast.List)) else [t]):
+                        b_ = el
+                        while isinstance(b_, ast.Subscript):     # only the stored-into object, not what its index expression reads
+                            b_ = b_.value
+                            out.add(txt(b_))
+                        if isinstance(el, (ast.Name, ast.Attribute)):
+                            out.add(txt(el))
             elif isinstance(n, ast.For) and n is not block:
                 for x in ast.walk(n.target):
                     if isinstance(x, (ast.Name, ast.Attribute)):
@@ -358,9 +364,16 @@ def inline_pure_temps(fdef):
         if defs.get(name) is not n.value:
             continue
         v = strip_cast(n.value)
-        if isinstance(v, (ast.Constant, ast.List, ast.Dict, ast.Tuple, ast.Set, ast.Name)):
+        if isinstance(v, (ast.Constant, ast.List, ast.Dict, ast.Set, ast.Name)):
             continue
-        if any(isinstance(x, ast.Call) and not (isinstance(x.func, ast.Name) and x.func.id == '__cast__') for x in ast.walk(v)):
+        def pure_call(x):
+            if isinstance(x.func, ast.Name):
+                return x.func.id in PURE_CALLS
+            if isinstance(x.func, ast.Attribute) and not x.keywords:
+                a_ = x.func.attr
+                return (a_ in PURE_METHODS and not x.args) or a_.startswith('get_') or a_.startswith('py_get_')
+            return False
+        if any(isinstance(x, ast.Call) and not pure_call(x) for x in ast.walk(v)):
             continue
         blk = getattr(n, '_parent', None)
         while blk is not None and blk is not fdef and not isinstance(blk, (ast.For, ast.While)):
@@ -377,7 +390,33 @@ def inline_pure_temps(fdef):
                 reads.add(txt(x.value))
             elif isinstance(x, (ast.Name, ast.Attribute)):
                 reads.add(txt(x))
-        if reads & stores_in(blk, n):
+        # stores that matter: those that can run between the definition and a use.  When the definition and all uses sit in one
+        # statement list, only the statements from the definition to the last use count (simple use statements cannot store before
+        # they read); otherwise the whole block counts.
+        span_stores = None
+        par = getattr(n, '_parent', None)
+        for fld in ('body', 'orelse', 'finalbody'):
+            lst = getattr(par, fld, None)
+            if isinstance(lst, list) and n in lst:
+                idxs = []
+                for u in uses_all:
+                    a_ = u
+                    while a_ is not None and a_ not in lst:
+                        a_ = getattr(a_, '_parent', None)
+                    if a_ is None:
+                        idxs = None
+                        break
+                    idxs.append(lst.index(a_))
+                if idxs and min(idxs) > lst.index(n):
+                    span_stores = set()
+                    for st_ in lst[lst.index(n) + 1:max(idxs) + 1]:
+                        simple_use = lst.index(st_) in idxs and isinstance(st_, (ast.Assign, ast.AugAssign, ast.Expr, ast.Return, ast.AnnAssign))
+                        if simple_use:
+                            continue
+                        span_stores |= stores_in(st_, n)
+        conflict = reads & (span_stores if span_stores is not None else stores_in(blk, n))
+        # a local that is itself bound exactly once cannot change between this definition and its uses
+        if conflict - {nm for nm, vv in defs.items() if vv is not None}:
             continue
         chosen[name] = n.value
     if not chosen:
@@ -430,4 +469,58 @@ def self_stores(fn):
                     out.append(node)
         elif isinstance(node, ast.Global):
             out.append(node)
+    return out
+
+
+def _src(n):
+    return ast.unparse(n)
+
+
+def complete_memo(fn, store):
+    """None if `store` (an assignment to an attribute inside an evaluation method) is part of a memo whose key is complete:
+    it sits under `if <input> != self.<saved> or ...:` and every argument-derived value that the stored expression reads is compared
+    in that test (directly or as the saved copy being refreshed).  Otherwise the reason why it is not."""
+    defs = {n_: v_ for n_, v_ in single_defs(fn).items() if v_ is not None}
+    guard = getattr(store, '_parent', None)
+    while guard is not None and not isinstance(guard, ast.If):
+        if isinstance(guard, (ast.For, ast.While, ast.FunctionDef)):
+            guard = None
+            break
+        guard = getattr(guard, '_parent', None)
+    if guard is None or store not in guard.body:
+        return 'not part of a guarded memo'
+    test = inline(guard.test, defs)
+    disj = test.values if isinstance(test, ast.BoolOp) and isinstance(test.op, ast.Or) else [test]
+    keyed = set()
+    for d in disj:
+        if not (isinstance(d, ast.Compare) and len(d.ops) == 1 and isinstance(d.ops[0], ast.NotEq)):
+            return 'the guard `%s` is not a disjunction of input != saved-copy tests' % _src(guard.test)
+        for side in (d.left, d.comparators[0]):
+            if not _src(side).startswith('self.'):
+                keyed.add(_src(side).replace(' ', ''))
+    args = {a.arg for a in fn.args.args[1:]}
+    val = inline(store.value, defs) if isinstance(store, ast.Assign) else None
+    if val is None:
+        return 'not a plain assignment'
+    needs = set()
+    for n_ in ast.walk(val):
+        if isinstance(n_, ast.Subscript) and isinstance(n_.value, ast.Name) and n_.value.id in args:
+            needs.add(_src(n_).replace(' ', ''))
+        elif isinstance(n_, ast.Name) and n_.id in args and not isinstance(getattr(n_, '_parent', None), ast.Subscript):
+            needs.add(n_.id)
+    # a saved copy (self.last_x = x) needs only itself in the key
+    missing = sorted(x for x in needs if not any(x == k_ or x in k_ for k_ in keyed))
+    if missing:
+        return 'the stored value depends on %s, which the guard does not compare' % ', '.join(missing)
+    return None
+
+
+
+
+def hidden_state_stores(fn):
+    """self-stores and global declarations of a method that are not part of a memo with a complete key"""
+    out = []
+    for st in self_stores(fn):
+        if isinstance(st, ast.Global) or complete_memo(fn, st) is not None:
+            out.append(st)
     return out
